@@ -142,6 +142,18 @@ CLAIMS["C15"] = dict(
     technique="contract-based deductive verification: exceptional postconditions with fault injection at the generic loop iteration; abstract resource model; fault enumeration for the writer",
     note=TRUST + " h5py/os/tempfile replaced by an abstract resource model (assumed contract); OS/HDF5 state after close only in the bounded native run; pause_on_interrupt=False.")
 
+CLAIMS["C11"] = dict(
+    category="proof",
+    text="On the real update() (callees stubbed): the returned dt and the next proposed step do not mention save_every / progress_interval / output file, "
+         "running_state is append-only (any read fails the obligation), inputs are not mutated and outputs do not alias inputs, probes only add records. "
+         "On the real runner loop with SYMBOLIC save_every the update of step i is called with S(i), T(i) and the previous dt whatever the save interval, and a "
+         "frame labelled s holds S(s) (C05) - so same-label frames coincide across recording configurations (corollary). On the real solve(): a seed "
+         "solution supplies psi, mu, currents and induced potential of its loaded frame as initial values, in update order. Bit-for-bit equality and the "
+         "resume equality itself are only covered by the bounded native run.",
+    design_ref="DESIGN.md section 4 C11",
+    technique="contract-based deductive verification: non-interference obligations on update(), runner loop invariant for symbolic save_every, seed contract on solve(); bounded native resume run",
+    note=TRUST + " Bit identity is A1/A6 (not decided).")
+
 NA = {}
 
 checks = []
